@@ -25,6 +25,7 @@ type c01Config struct {
 	FlappingNever                   bool `json:"flapping_with_unreachable_thresholds"`
 	Fields                          bool `json:"level_id_duration_fields"`
 	Batch                           bool `json:"batch_form"`
+	BatchWinS                       int  `json:"batch_window_s,omitempty"`
 	All                             bool `json:"all"`
 	// ResetField: the reset conditions read the field "r" instead of "v".  SplitFields: warn reads "wv" and crit reads "cv",
 	// fields that some points do not carry; a condition over an absent field does not hold.
@@ -122,8 +123,12 @@ func c01Gen(c *Ctx) *c01Scenario {
 	cf.Batch = g.Chance(1, 4)
 	if cf.Batch {
 		cf.All = g.Bool()
-		// the batch form is checked for plain thresholds only (the documentation does not say how reset expressions combine inside one batch)
-		cf.InfoReset, cf.WarnReset, cf.CritReset = 0, 0, 0
+		// in the batch form the alert's state moves once per batch: every point of a batch is held back by the reset
+		// condition of the level the ID had when the batch arrived (half of the batch cases keep their resets)
+		if g.Chance(1, 3) {
+			cf.InfoReset, cf.WarnReset, cf.CritReset = 0, 0, 0
+		}
+		cf.BatchWinS = []int{2, 2, 4}[g.Intn(3)]
 		cf.SCOIntervalS = 0
 	} else {
 		cf.ResetField = (cf.InfoReset+cf.WarnReset+cf.CritReset) > 0 && g.Chance(1, 3)
@@ -164,7 +169,7 @@ func c01Gen(c *Ctx) *c01Scenario {
 	sb.WriteString("stream\n    |from().measurement('m').groupBy('host')\n")
 	if cf.Batch {
 		// one batch per 2s of data time; every point of a host lies in exactly one tumbling window
-		sb.WriteString("    |window().period(2s).every(2s).align()\n")
+		fmt.Fprintf(&sb, "    |window().period(%ds).every(%ds).align()\n", cf.BatchWinS, cf.BatchWinS)
 	}
 	sb.WriteString("    |alert()\n        .id('{{ index .Tags \"host\" }}')\n        .message('{{ .ID }}')\n")
 	if cf.Info > 0 {
@@ -302,7 +307,7 @@ func (cf *c01Config) model(pts []c01Point) []c01Event {
 	return out
 }
 
-// batchModel: one decision per tumbling 2s window [2k, 2k+2): level = highest (or lowest with all()) of the window's points.
+// batchModel: one decision per tumbling window of 2s or 4s [Nk, Nk+N): level = highest (or lowest with all()) of the window's points.
 // Without all() a non-OK event is triggered by the first point of the window that reaches the window's level: the
 // event carries that point's time, and its duration counts from the triggering point of the episode's first event.
 // TimeS = -1 where the statement does not say which point's time an event carries (recoveries, all()).
@@ -312,10 +317,10 @@ func (cf *c01Config) batchModel(pts []c01Point) []c01Event {
 	leftOK := -1
 	i := 0
 	for i < len(pts) {
-		w := pts[i].T / 2
+		w := pts[i].T / cf.BatchWinS
 		hi, lo := alert.OK, alert.Critical
 		hiT := -1
-		for i < len(pts) && pts[i].T/2 == w {
+		for i < len(pts) && pts[i].T/cf.BatchWinS == w {
 			l := cf.level(cur, pts[i])
 			if l > hi || hiT < 0 {
 				hi, hiT = l, pts[i].T
